@@ -540,7 +540,7 @@ def r3_rebuild_and_assert(run, w):
            node=cfg.nodes[bad[0]].stmt if bad else None)
   # C04-R3: clone / restore / _schema_updated = True before dispatch (recorded under C08-R3)
   from .c04 import r3_schema_restore
-  r3_schema_restore(H.RuleAlias(run, {"C04-R3": R3}), w)
+  r3_schema_restore(H.RuleAlias(run, {"C04-R3": R3}), H.NormWorld(w))
   run.rule(R3, run.rules[R3]["desc"], floor=18)
   # apply_user_actions (private helpers of Engine it calls are read in place)
   fn = w.fn("engine.Engine.apply_user_actions")
